@@ -119,3 +119,18 @@ def read_peptide_table(path) -> list:
             else:
                 rows.append({'_raw': f})
     return rows
+
+
+def generate_index(wd, out, rule='trypsin', exception='auto', miscleavage=2, min_mw=500., min_length=7, max_length=25,
+                   force=False):
+    """generateIndex in-process on the reference files in wd."""
+    from moPepGen.cli.generate_index import generate_index as gi
+    a = ref_namespace(wd)
+    cleavage_namespace(a, rule, exception, miscleavage, min_mw, min_length, max_length)
+    a.command = 'generateIndex'
+    a.output_dir = Path(out)
+    a.gtf_symlink = False
+    a.force = force
+    with quiet():
+        gi(a)
+    return Path(out)
